@@ -34,6 +34,9 @@ func scCert(serials []*big.Int) func() Scenario {
 		}
 		// a stranger submitting someone else's certificate under its own name
 		al = append(al, aCreateCert("T2", "T1", big.NewInt(1)), aCreateCert("T1", "T2", big.NewInt(256)))
+		// another certificate with an already used serial; serials 8 and 10 with a revoke spelled "010" (decimal 10, octal 8)
+		al = append(al, aCreateCertAlt("T1", big.NewInt(1)), aCreateCertAlt("T1", big.NewInt(256)),
+			aCreateCert("T1", "T1", big.NewInt(8)), aCreateCert("T1", "T1", big.NewInt(10)), aRevokeCertSpelled("T1", "010"))
 		sc.Alphabet = al
 		return sc
 	}
